@@ -1,5 +1,5 @@
 """Per-property configuration of the checks (see DESIGN.md §6)."""
-from vlib import run_verus_property, run_verus_multi, run_kani_property, run_compile_snippets
+from vlib import run_native_enum, run_verus_property, run_verus_multi, run_kani_property, run_compile_snippets
 
 PRELUDE = ["00_prelude.vrs"]
 STACK = ["10_stack.vrs"]
@@ -275,7 +275,10 @@ PROPS = {
     },
     "C05": {
         "templates": PRELUDE + STD + STACK + PUSH_L1 + PUSH_L2 + ["70_parser.vrs"] + MAIN, "expand": True, "extern": True,
-        "steps": [run_verus_property, run_kani_property], "kani": KANI["C05"], "level": "proof",
+        "steps": [run_verus_property, run_kani_property, run_native_enum], "kani": KANI["C05"], "level": "proof",
+        "native": [{"harness": "c05_enum_6", "bound": "every genome of length 0..=6 over all seven gene kinds {Close, Add, When, IfElse, Unless, DupBlock, Noop} (137 257 genomes)",
+                    "what": "the real From<Plushy> for Vec<PushProgram> against an independent recursive descent (fallback when a rewritten parser defeats the extractor)"},
+                   {"harness": "c05_enum_8", "tier": "thorough", "bound": "every genome of length 0..=8 over the seven gene kinds (6 725 601 genomes)", "what": "as c05_enum_6", "timeout": 3000}],
         "explanation": "parse_from_plushy (instantiated at vec::IntoIter<PushGene>) is proved equal to an independent recursive-descent reference "
                        "parser (parse_seq/parse_blocks) with termination; lemmas over the reference parser prove the declarative reading: depth-first "
                        "flattening == the genome's instruction sequence, every instruction opening k blocks is followed by exactly k well-shaped blocks, "
